@@ -799,7 +799,7 @@ def getConnCore (s : State) (a : Nat) (clock : Nat) : State × Option Nat :=
       let s := setA s a (cs, cur')
       match cs[cur']? with
       | some id =>
-        if isAlive s id then (s, some id)
+        if isAlive s id then (updPc s id fun p => { p with lastUse := s.now }, some id)
         else match dial s a clock with
           | some (s, nid) => (setA s a (cs.set cur' nid, cur'), some nid)
           | none => (s, none)
@@ -1136,7 +1136,7 @@ theorem inv2_getConnCore (s : State) (h : Inv2 s) (a clock : Nat) : Inv2 (getCon
       split
       · next id hid =>
         split
-        · exact h1
+        · exact h1.updPc id _ (lastUse_ok _)
         · next hal =>
           have hal' : isAlive s id = false := by
             have : isAlive (setA s a (cs, Gen.cursorNext cur cs.length)) id = isAlive s id := rfl
@@ -1896,7 +1896,9 @@ theorem res_getConnCore (s : State) (h : Inv2 s) (a clock id : Nat) (hr : (getCo
             (mem_pl _ _ a id0).2 (Or.inl ⟨cs, cur, hA, hmem⟩)
           obtain ⟨p', hp', hpa'⟩ := h.2.2.addr a id0 hm
           rw [hp] at hp'; injection hp' with hp'; subst hp'
-          exact ⟨p, hp, hpa', hpa, mem_pooled_setA _ a _ _ id0 hmem⟩
+          refine ⟨{ p with lastUse := s.now }, ?_, hpa', hpa, ?_⟩
+          · fsimp; simp [hp]
+          · exact mem_pooled_setA s a _ _ id0 hmem
         | false =>
           rw [hal] at hr
           simp only [Bool.false_eq_true, if_false] at hr ⊢
@@ -2189,7 +2191,7 @@ theorem am_getConnCore (s : State) (hn : s.pcs s.nextId = none) (a clock : Nat) 
     · rw [dial_eq, setA_up, setA_nextId]
       split
       · split
-        · exact AM.of_eq rfl
+        · exact (AM.of_eq (s := s) (s' := setA s a _) rfl).trans (am_updPc _ _ _ (fun _ h => h))
         · cases hu : s.up a
           · exact AM.of_eq rfl
           · exact ((AM.of_eq (s := s) (s' := setA s a _) rfl).trans (am_dialSt _ a clock hn)).trans (AM.of_eq rfl)
